@@ -133,3 +133,274 @@ theorem final_part_admits (pre : Str) (kind : RKind) (post v : Str) (w : Weighti
       simpa using this
 
 end Wz.Routing
+
+namespace Wz.Routing
+
+/-- the condition on a path value: when the rule goes on after the path converter and ends in '/',
+the text in front of that final slash must not end in '/' itself (werkzeug's `(?<!/)`) -/
+def PathTailOK : List Tok → List Str → Prop
+  | [], _ => True
+  | .slash :: t, vs => PathTailOK t vs
+  | .lit _ :: t, vs => PathTailOK t vs
+  | .var c _ :: t, v :: vs =>
+    if c = .path then
+      ∀ post, renderToks t [] = some post → endsWithChar post '/' = true → endsWithChar (v ++ post.dropLast) '/' = false
+    else PathTailOK t vs
+  | .var _ _ :: _, [] => True
+
+/-- values of isolating converters contain no '/' (a path value may) -/
+def IsoNoSlash : List Tok → List Str → Prop
+  | [], _ => True
+  | .slash :: t, vs => IsoNoSlash t vs
+  | .lit _ :: t, vs => IsoNoSlash t vs
+  | .var c _ :: t, v :: vs => (c.partIsolating = true → noSlash v) ∧ IsoNoSlash t vs
+  | .var _ _ :: _, [] => True
+
+theorem tail_render_nil : ∀ (toks : List Tok) (vs : List Str) {text}, TailToks toks → renderToks toks vs = some text → vs = []
+  | [], [], _, _, _ => rfl
+  | [], _ :: _, _, _, h => by simp [renderToks] at h
+  | .slash :: t, vs, _, ht, h => by
+    simp only [renderToks, Option.map_eq_some_iff] at h
+    obtain ⟨_, h', _⟩ := h
+    exact tail_render_nil t vs ht h'
+  | .lit _ :: t, vs, _, ht, h => by
+    simp only [renderToks, Option.map_eq_some_iff] at h
+    obtain ⟨_, h', _⟩ := h
+    exact tail_render_nil t vs ht h'
+  | .var .. :: _, _, _, ht, _ => ht.elim
+
+theorem endsWithChar_append_right (a b : Str) (c : Char) (hb : b ≠ []) : endsWithChar (a ++ b) c = endsWithChar b c := by
+  simp only [endsWithChar, List.getLast?_append]
+  cases hl : b.getLast? with
+  | none => exact absurd (List.getLast?_eq_none_iff.1 hl) hb
+  | some x => simp
+
+/-- **the rule's own parts admit what the rule renders** (the property's grammar: isolating
+converters and optionally one trailing path converter) -/
+theorem parse_render_admits_gram : ∀ (toks : List Tok) (p : PState) (pv : Option Str) (vs : List Str)
+    {parts convs text}, PendOK p pv → GramToks toks → PathTailOK toks vs →
+    parseToks toks p = some (parts, convs) → renderToks toks vs = some text →
+    IsoNoSlash toks vs → AllAccept ((tokConvs toks).map Conv.kind) vs →
+    walkVia .direct parts (splitOn '/' (pendText p pv ++ text)) = some (pv.toList ++ vs) := by
+  intro toks
+  induction toks with
+  | nil =>
+    intro p pv vs parts convs text hp _ _ hparse hrender _ _
+    cases vs with
+    | cons v vs => simp [renderToks] at hrender
+    | nil =>
+      simp only [renderToks, Option.some.injEq] at hrender
+      subst hrender
+      simp only [parseToks, hp.notFinal, Bool.false_and, Bool.false_eq_true, if_false, Option.some.injEq, Prod.mk.injEq] at hparse
+      obtain ⟨rfl, _⟩ := hparse
+      rw [List.append_nil, splitOn_noSlash _ (pendText_noSlash hp)]
+      have hw : walkVia .direct [] [] = some [] := by simp [walkVia]
+      have := walkVia_cons_of_step (via := .direct) (step_emit hp []) hw
+      simpa using this
+  | cons t toks ih =>
+    intro p pv vs parts convs text hp hiso htail hparse hrender hns hacc
+    cases t with
+    | lit s =>
+      simp only [GramToks] at hiso
+      simp only [renderToks, Option.map_eq_some_iff] at hrender
+      obtain ⟨text', hr', rfl⟩ := hrender
+      simp only [parseToks] at hparse
+      split at hparse
+      · rename_i hc
+        have hpv : pv = none := by
+          have := hp.conv_iff; rw [hc] at this
+          cases pv with
+          | none => rfl
+          | some v => cases this
+        have hp' : PendOK { p with pre := p.pre ++ s, staticWeights := p.staticWeights ++ [((p.staticWeights.length : Int), -(s.length : Int))] } pv :=
+          ⟨hp.notFinal, hp.conv_iff, hp.accepts, noSlash_append hp.pre_ns hiso.1, hp.post_ns, hp.pv_ns, hp.post_nil⟩
+        have := ih _ pv vs hp' hiso.2 (by simpa [PathTailOK] using htail) hparse hr' (by simpa [IsoNoSlash] using hns) (by simpa [tokConvs] using hacc)
+        subst hpv
+        simpa [pendText, hp.post_nil hc, List.append_assoc] using this
+      · rename_i cn hc
+        have hp' : PendOK { p with post := p.post ++ s, staticWeights := p.staticWeights ++ [((p.staticWeights.length : Int), -(s.length : Int))] } pv :=
+          ⟨hp.notFinal, hp.conv_iff, hp.accepts, hp.pre_ns, noSlash_append hp.post_ns hiso.1, hp.pv_ns,
+            fun h => by rw [hc] at h; cases h⟩
+        have := ih _ pv vs hp' hiso.2 (by simpa [PathTailOK] using htail) hparse hr' (by simpa [IsoNoSlash] using hns) (by simpa [tokConvs] using hacc)
+        simpa [pendText, List.append_assoc] using this
+    | var c n =>
+      simp only [GramToks] at hiso
+      cases vs with
+      | nil => simp [renderToks] at hrender
+      | cons v vs' =>
+        simp only [renderToks, Option.map_eq_some_iff] at hrender
+        obtain ⟨text', hr', rfl⟩ := hrender
+        simp only [parseToks] at hparse
+        split at hparse
+        · cases hparse
+        · rename_i hc
+          have hpv : pv = none := by
+            have := hp.conv_iff; rw [hc] at this
+            cases pv with
+            | none => rfl
+            | some v => cases this
+          subst hpv
+          simp only [tokConvs, List.map_cons, AllAccept] at hacc
+          simp only [IsoNoSlash] at hns
+          rcases hiso with ⟨hisoc, hiso'⟩ | ⟨hpath, htailt⟩
+          · have hp' : PendOK { p with conv := some (c, n), final := p.final || !c.partIsolating,
+                                       argWeights := p.argWeights ++ [(c.weight : Int)] } (some v) := by
+              refine ⟨by simp [hp.notFinal, hisoc], rfl, ?_, hp.pre_ns, hp.post_ns, ?_, ?_⟩
+              · intro c' n' v' h1 h2
+                cases h1; cases h2; exact hacc.1
+              · intro v' h
+                cases h; exact hns.1 hisoc
+              · intro h; cases h
+            have hnp : c ≠ .path := by intro h; subst h; cases hisoc
+            have htail' : PathTailOK toks vs' := by simpa [PathTailOK, hnp] using htail
+            have := ih _ (some v) vs' hp' hiso' htail' hparse hr' hns.2 hacc.2
+            simpa [pendText, hp.post_nil hc, List.append_assoc] using this
+          · subst hpath
+            have hvs' : vs' = [] := tail_render_nil toks vs' htailt hr'
+            subst hvs'
+            have hpost : p.post = [] := hp.post_nil hc
+            obtain ⟨w, hw⟩ := parseToks_final toks _ .path n (by simp [Conv.partIsolating]) rfl hparse hr'
+            simp only [hpost, List.nil_append] at hw
+            subst hw
+            simp only [PathTailOK, if_true] at htail
+            have hv1 : v ≠ [] := by
+              intro hv; subst hv
+              have := hacc.1; simp [Conv.kind, RKind.accepts] at this
+            have hsfx : endsWithChar text' '/' = true → endsWithChar (p.pre ++ v ++ text'.dropLast) '/' = false := by
+              intro he
+              have := htail text' hr' he
+              rw [List.append_assoc, endsWithChar_append_right _ _ _ (by simp [hv1])]
+              exact this
+            have := final_part_admits p.pre (Conv.kind .path) text' v w hacc.1 hsfx
+            simpa [pendText, hpost, List.append_assoc] using this
+    | slash =>
+      simp only [GramToks] at hiso
+      simp only [renderToks, Option.map_eq_some_iff] at hrender
+      obtain ⟨text', hr', rfl⟩ := hrender
+      simp only [parseToks, hp.notFinal, Bool.false_eq_true, if_false] at hparse
+      cases hrec : parseToks toks {} with
+      | none => simp [hrec] at hparse
+      | some pc =>
+        obtain ⟨parts', convs'⟩ := pc
+        simp only [hrec, Option.some.injEq, Prod.mk.injEq] at hparse
+        obtain ⟨rfl, _⟩ := hparse
+        have hp0 : PendOK {} none := by
+          refine ⟨rfl, rfl, ?_, ?_, ?_, ?_, ?_⟩
+          · intro _ _ _ h; cases h
+          · simp [noSlash]
+          · simp [noSlash]
+          · intro _ h; cases h
+          · intro _; rfl
+        have hrest := ih {} none vs hp0 hiso (by simpa [PathTailOK] using htail) hrec hr' (by simpa [IsoNoSlash] using hns) (by simpa [tokConvs] using hacc)
+        simp only [pendText, List.nil_append, Option.getD_none, List.append_nil, Option.toList_none] at hrest
+        rw [splitOn_append_slash _ _ (pendText_noSlash hp)]
+        exact walkVia_cons_of_step (step_emit hp _) hrest
+
+
+end Wz.Routing
+
+namespace Wz.Routing
+
+/-! ### decidable forms (for concrete examples) -/
+
+def tailToksB : List Tok → Bool
+  | [] => true
+  | .slash :: t => tailToksB t
+  | .lit _ :: t => tailToksB t
+  | .var .. :: _ => false
+
+theorem tailToksB_sound : ∀ toks, tailToksB toks = true → TailToks toks
+  | [], _ => trivial
+  | .slash :: t, h => tailToksB_sound t h
+  | .lit _ :: t, h => tailToksB_sound t h
+  | .var .. :: _, h => by cases h
+
+def gramToksB : List Tok → Bool
+  | [] => true
+  | .slash :: t => gramToksB t
+  | .lit s :: t => !s.contains '/' && gramToksB t
+  | .var c _ :: t => (c.partIsolating && gramToksB t) || (c == .path && tailToksB t)
+
+theorem gramToksB_sound : ∀ toks, gramToksB toks = true → GramToks toks
+  | [], _ => trivial
+  | .slash :: t, h => gramToksB_sound t h
+  | .lit s :: t, h => by
+    simp only [gramToksB, Bool.and_eq_true, Bool.not_eq_true', List.contains_eq_mem, decide_eq_false_iff_not] at h
+    exact ⟨h.1, gramToksB_sound t h.2⟩
+  | .var c _ :: t, h => by
+    simp only [gramToksB, Bool.or_eq_true, Bool.and_eq_true, beq_iff_eq] at h
+    rcases h with h | h
+    · exact .inl ⟨h.1, gramToksB_sound t h.2⟩
+    · exact .inr ⟨h.1, tailToksB_sound t h.2⟩
+
+def pathTailOKB : List Tok → List Str → Bool
+  | [], _ => true
+  | .slash :: t, vs => pathTailOKB t vs
+  | .lit _ :: t, vs => pathTailOKB t vs
+  | .var c _ :: t, v :: vs =>
+    if c = .path then
+      (match renderToks t [] with
+       | some post => !endsWithChar post '/' || !endsWithChar (v ++ post.dropLast) '/'
+       | none => true)
+    else pathTailOKB t vs
+  | .var _ _ :: _, [] => true
+
+theorem pathTailOKB_sound : ∀ toks vs, pathTailOKB toks vs = true → PathTailOK toks vs
+  | [], _, _ => trivial
+  | .slash :: t, vs, h => pathTailOKB_sound t vs h
+  | .lit _ :: t, vs, h => pathTailOKB_sound t vs h
+  | .var _ _ :: _, [], _ => trivial
+  | .var c _ :: t, v :: vs, h => by
+    simp only [pathTailOKB] at h
+    simp only [PathTailOK]
+    split
+    · rename_i hc
+      simp only [hc, if_true] at h
+      intro post hp he
+      simp only [hp, he, Bool.not_true, Bool.false_or, Bool.not_eq_true'] at h
+      exact h
+    · rename_i hc
+      simp only [hc, if_false] at h
+      exact pathTailOKB_sound t vs h
+
+def isoNoSlashB : List Tok → List Str → Bool
+  | [], _ => true
+  | .slash :: t, vs => isoNoSlashB t vs
+  | .lit _ :: t, vs => isoNoSlashB t vs
+  | .var c _ :: t, v :: vs => (!c.partIsolating || !v.contains '/') && isoNoSlashB t vs
+  | .var _ _ :: _, [] => true
+
+theorem isoNoSlashB_sound : ∀ toks vs, isoNoSlashB toks vs = true → IsoNoSlash toks vs
+  | [], _, _ => trivial
+  | .slash :: t, vs, h => isoNoSlashB_sound t vs h
+  | .lit _ :: t, vs, h => isoNoSlashB_sound t vs h
+  | .var _ _ :: _, [], _ => trivial
+  | .var c _ :: t, v :: vs, h => by
+    simp only [isoNoSlashB, Bool.and_eq_true, Bool.or_eq_true, Bool.not_eq_true', List.contains_eq_mem,
+      decide_eq_false_iff_not] at h
+    refine ⟨?_, isoNoSlashB_sound t vs h.2⟩
+    intro hc
+    rcases h.1 with h1 | h1
+    · rw [hc] at h1; cases h1
+    · exact h1
+
+/-- all hypotheses of `rule_build_match_partial` about the rule and the values, as one computation -/
+def buildDomainGB (r : Rule) (values : List (Str × Value)) : Bool :=
+  gramToksB r.pathToks && urlsClosedB r values r.pathToks &&
+  (match valueTexts r values r.pathToks with
+   | some ts => isoNoSlashB r.pathToks ts && pathTailOKB r.pathToks ts &&
+                allAcceptB ((tokConvs r.pathToks).map Conv.kind) ts
+   | none => true)
+
+theorem buildDomainGB_sound (r : Rule) (values : List (Str × Value)) (h : buildDomainGB r values = true) :
+    GramToks r.pathToks ∧ UrlsClosed r values r.pathToks ∧
+    (∀ ts, valueTexts r values r.pathToks = some ts →
+      IsoNoSlash r.pathToks ts ∧ PathTailOK r.pathToks ts ∧ AllAccept ((tokConvs r.pathToks).map Conv.kind) ts) := by
+  simp only [buildDomainGB, Bool.and_eq_true] at h
+  refine ⟨gramToksB_sound _ h.1.1, urlsClosedB_sound r values _ h.1.2, ?_⟩
+  intro ts hts
+  have h2 := h.2
+  simp only [hts, Bool.and_eq_true] at h2
+  exact ⟨isoNoSlashB_sound _ _ h2.1.1, pathTailOKB_sound _ _ h2.1.2, allAcceptB_sound _ _ h2.2⟩
+
+end Wz.Routing
